@@ -23,6 +23,24 @@ created and removed by the whole process tree are observed with an LD_PRELOAD in
   triples), five spellings of the -o path with and without -MD, -MD -MF.  The model's output names (last component,
   extension replaced, in the cwd; acceptable alternatives where conventions differ) are arbitrated by running gcc
   on the same single-input command; a command on which gcc and the model disagree is not judged.
+  Driver-fault family (driver_family): failures that originate in the DRIVER itself, possibly after it has run steps
+  for earlier inputs.  A word the driver must refuse or cannot use - a file whose extension names no language (unk),
+  an unknown option (opt_unk), -x with an unknown language (opt_badx), a missing input of each language (c_nx s_nx
+  o_nx), an unreadable input (c_dir) - at EVERY POSITION (first, middle, last) of lists of two (the other member c, s
+  or o) and three (quick: the others c c; thorough: every pair over c s o), -o without its argument as the last word
+  (opt_noarg), and each of these words alone; in every mode x -o {absent, file} x {writable directory, sentinel at
+  every output}.  One -o for several inputs with -o written after the 1st .. n-th input (OPOS_LISTS), all modes.
+  Whether such a command must fail is arbitrated by gcc on the same command (disagreement = shape not judged);
+  leftover temporaries, outputs and exit status are judged exactly as for subprocess faults.
+  `tmp` fault: the driver's own k-th temporary-file creation fails (ENOSPC from the mkstemp family, injected by the
+  interposer in the driver process only), for every k, in every -c / link shape that has step faults (writable
+  directory) and in good lists of three (GOOD3): a failure inside the driver after k-1 temporaries exist.  Exit 0
+  under this fault is held against the outputs (all must exist), non-zero exit against temporaries and outputs.
+  What is judged never depends on seeing the front end start as a program: files created and removed by a child the
+  driver forks WITHOUT exec are attributed to the driver ("<exe> (forked)") and judged like all others.  A driver
+  whose front end is not a program of its own has no cc1 step to observe or to fail: counted as
+  `cc1_steps_not_observable` (of `cc1_steps_expected_in_successful_commands`) and recorded as incompleteness of the
+  fault enumeration - never a deviation, never exit 2.
 Part 2 (schedules): two (thorough: also three) drivers in one directory.  Every subprocess step blocks in its shim on
 a unix socket; the orchestrator waits until the whole process tree is quiescent, grants ONE of the blocked steps
 (any driver may have several blocked at once - each is an enabled transition), waits for that process to be gone, and
@@ -50,7 +68,7 @@ from vlib import core
 from models import c14_driver as M
 
 LEVEL = "fault_enumeration"
-BUDGET = {"quick": 600, "thorough": 3000}       # global deadlines, not targets (quick: ~4 CPU-min, thorough: ~25 CPU-min)
+BUDGET = {"quick": 1200, "thorough": 6000}      # global deadlines, not targets (quick: ~4 CPU-min, thorough: ~25 CPU-min)
 PART2_RESERVE = {"quick": 90, "thorough": 600}   # part 1 stops submitting work when less than this is left for part 2
 
 FAULTS = {"quick": ["exit1", "exit3", "segv", "kill", "noexec", "partial"],
@@ -82,6 +100,7 @@ EXTRA_LISTS = {
 }
 GOOD_KINDS = frozenset(["c", "s", "o"])
 RUN_TIMEOUT = 60
+TMP_FAULT = "enospc"
 
 
 # ----------------------------------------------------------------------------------------------------
@@ -113,6 +132,7 @@ def build_tools(chibicc, include, workroot):
                 op = os.path.join(tools, "m.o")
                 core.sh([real_as, "-o", op, sp], check=True)
                 mats[pre + M.in_name(k, slot)] = open(op, "rb").read()
+        mats[M.in_name("unk", slot)] = M.UNK_TEXT % slot
     cfg = {"chibicc": chibicc, "include": include, "shim": os.path.join(tools, "c14_shim"),
            "preload": os.path.join(tools, "c14_preload.so"), "as": real_as, "ld": real_ld,
            "root": workroot, "mats": mats}
@@ -313,24 +333,35 @@ class Sandbox:
         driver_seen = False
         unreaped = {}       # pid of a process running the driver binary -> children forked and not yet reaped
         real_driver = os.path.realpath(self.cfg["chibicc"])
+        nforks = driver_mks = 0
+        mkfail = False
         for pid, op, a, b in trace:
             if op == "init":
                 exes[pid] = os.path.basename(a)
                 if os.path.realpath(a) == real_driver:
                     driver_seen = True
                     unreaped.setdefault(pid, set())
-            elif op == "fk":
+                continue
+            if op == "fk":
                 if pid in unreaped:
                     # a second child while one is unreaped: the driver runs steps concurrently (program order of
                     # the driver itself - does not depend on how fast the steps are)
                     overlap = overlap or bool(unreaped[pid])
                     unreaped[pid].add(a)
+                    nforks += 1
+                if a.isdigit() and int(a) not in exes:
+                    # until (unless) the child executes a program it is a copy of its parent: what it creates and
+                    # removes is judged like everything else
+                    exes[int(a)] = exes.get(pid, "?").replace(" (forked)", "") + " (forked)"
+            elif op == "mkfail":
+                mkfail = True
             elif op == "wt":
                 if pid in unreaped:
                     unreaped[pid].discard(a)
                     unreaped[pid].discard("0")
             elif op == "mk":
                 temps[a] = exes.get(pid, "?")
+                driver_mks += pid in unreaped
             elif op == "cr":
                 if is_temp_loc(a):
                     temps.setdefault(a, exes.get(pid, "?"))
@@ -351,7 +382,8 @@ class Sandbox:
         # children the driver never reaped: it may have left before they were done (looked at under the scheduler)
         overlap = overlap or any(unreaped.values())
         return {"status": status, "stdout": out, "stderr": err, "steps": steps, "ends": ends, "leaks": leaks,
-                "driver_seen": driver_seen, "ntemps": ntemps, "overlap": overlap}
+                "driver_seen": driver_seen, "ntemps": ntemps, "overlap": overlap, "nforks": nforks,
+                "driver_mks": driver_mks, "mkfail": mkfail}
 
     def run_one(self, shape_argv, fault=None):
         self.nruns += 1
@@ -386,6 +418,8 @@ def fault_fired(fault, obs, base_steps):
     if not fault:
         return False
     kind, k, how = fault
+    if kind == "tmp":       # the driver's own k-th temporary-file creation was made to fail (by the interposer)
+        return bool(obs.get("mkfail"))
     if isinstance(k, str):
         return bool(obs.get("fault_delivered"))
     seen = set((s["kind"], s["k"]) for s in obs["steps"])
@@ -419,7 +453,10 @@ def judge(shape, fault, obs, before, after, base_steps=None, cc1_slots=None):
             faulted_slots.add(cc1_slots[fault[1] - 1])
 
     # 1. exit status
-    if (shape.ok is False or fired) and st == 0:
+    # (a driver that cannot create a temporary may still do what was asked by other means: under a `tmp` fault exit
+    # status 0 is held against the outputs - all of them must be there - instead of being a deviation by itself)
+    tmp_fault = bool(fault) and fault[0] == "tmp"
+    if (shape.ok is False or (fired and not tmp_fault)) and st == 0:
         devs.append(("exit0-despite-failure", "exit status 0"))
     elif st == 0 and obs.get("outstanding_at_exit"):
         # seen only under the step scheduler: the driver left with status 0 while a step it had started was still
@@ -459,8 +496,9 @@ def judge(shape, fault, obs, before, after, base_steps=None, cc1_slots=None):
         devs.append(("temp-left", "left in $TMPDIR: %s" % obs["tmpdir_left"]))
 
     # 4. the directory changes by exactly the requested outputs
-    devs += naming_devs(shape, before, after, flagged, success=(not fault and st == 0 and shape.ok is not False))
-    if not fault and st == 0 and shape.ok is not False:
+    success = (not fault or tmp_fault) and st == 0 and shape.ok is not False
+    devs += naming_devs(shape, before, after, flagged, success=success)
+    if success:
         # Success was reported (also where the property lets the driver refuse - one -o for several inputs,
         # coinciding default names): then every translation unit's output is there, none was lost
         for p in shape.outputs:
@@ -670,7 +708,7 @@ class Orchestrator:
             invs = []
             for i, argv in enumerate(cmds):
                 f = faults.get(i)
-                envf = f if f and f[2] == "noexec" else None
+                envf = f if f and (f[2] == "noexec" or f[0] == "tmp") else None    # the others are delivered in grant()
                 pre, env, inv = sb.prepare_invocation("d%d" % i, envf, sched=sockp, ident=str(i))
                 invs.append(inv)
                 with open(os.path.join(inv, "stdout"), "wb") as so, open(os.path.join(inv, "stderr"), "wb") as se, sb.stdin_file() as fin:
@@ -935,7 +973,11 @@ def siblings(pre, res):
 def run_shape(cfg, shape, faults, rundir, force_orch=False):
     """Returns dict(runs, viol=[(fault, deviation, detail, via)], counters, base_steps).  via = "free" (the driver
     ran unhindered) or "orch" (under the step scheduler, used when the driver overlaps its own steps)."""
-    res = {"runs": 0, "viol": [], "cnt": {}, "steps": [], "ntemps": 0, "status": None, "orch_error": None}
+    res = {"runs": 0, "viol": [], "cnt": {}, "steps": [], "ntemps": 0, "status": None, "orch_error": None,
+           "forks": 0, "fault_points": 0}
+    # "enospc" is not a way for a step to fail: it asks for the driver's own k-th temporary-file creation to fail
+    tmp_faults = [h for h in faults if h == TMP_FAULT]
+    faults = [h for h in faults if h != TMP_FAULT]
 
     def bump(cnt):
         for k, v in cnt.items():
@@ -960,6 +1002,9 @@ def run_shape(cfg, shape, faults, rundir, force_orch=False):
     res["status"] = obs0["status"]
     base_steps = [(s["kind"], s["k"]) for s in obs0["steps"]]
     res["steps"] = base_steps
+    res["forks"] = obs0["nforks"]
+    tmp_points = [("tmp", k, how) for how in tmp_faults for k in range(1, obs0["driver_mks"] + 1)]
+    res["fault_points"] = len(base_steps) * len(faults) + len(tmp_points)
     cc1_slots = []
     for s in obs0["steps"]:
         if s["kind"] == "cc1":
@@ -969,6 +1014,15 @@ def run_shape(cfg, shape, faults, rundir, force_orch=False):
     model_steps = sorted(k for k, _ in shape.steps)
     if obs0["status"] == 0 and sorted(k for k, _ in base_steps) != model_steps:
         res["cnt"]["steps_differ_from_model"] = 1
+    if obs0["status"] == 0:
+        # The front end need not be a program of its own (a driver may compile in a forked copy of itself, or in
+        # process): then there is no cc1 step to observe or to make fail.  Not a deviation; counted, and everything
+        # that is judged (exit status, temporaries, outputs) is judged all the same.
+        want = sum(1 for k in model_steps if k == "cc1")
+        seen = sum(1 for k, _ in base_steps if k == "cc1")
+        res["cnt"]["cc1_steps_expected_in_successful_commands"] = want
+        if seen < want:
+            res["cnt"]["cc1_steps_not_observable"] = want - seen
     overlap = obs0["overlap"] or force_orch
     free_viol = [(None, dv, detail, "free") for dv, detail in devs0]
     if not overlap:
@@ -982,6 +1036,9 @@ def run_shape(cfg, shape, faults, rundir, force_orch=False):
                 obs, devs = one(fault, base_steps, cc1_slots)
                 overlap = overlap or obs["overlap"]
                 free_viol += [(fault, dv, detail, "free") for dv, detail in devs]
+        for fault in tmp_points:
+            obs, devs = one(fault, base_steps, cc1_slots)
+            free_viol += [(fault, dv, detail, "free") for dv, detail in devs]
     if not overlap:
         res["viol"] += free_viol
         return res
@@ -991,7 +1048,7 @@ def run_shape(cfg, shape, faults, rundir, force_orch=False):
     # an uncontrolled order).
     res["cnt"]["shapes_with_overlapping_steps"] = 1
     try:
-        run_shape_orch(cfg, shape, faults, rundir, res, base_steps, cc1_slots, bump)
+        run_shape_orch(cfg, shape, faults, rundir, res, base_steps, cc1_slots, bump, tmp_points)
     except core.HarnessError as e:
         if isinstance(e, OrchTimeout):
             res["cnt"]["timeouts"] = res["cnt"].get("timeouts", 0) + 1
@@ -1001,7 +1058,7 @@ def run_shape(cfg, shape, faults, rundir, force_orch=False):
     return res
 
 
-def run_shape_orch(cfg, shape, faults, rundir, res, base_steps, cc1_slots, bump):
+def run_shape_orch(cfg, shape, faults, rundir, res, base_steps, cc1_slots, bump, tmp_points=()):
     orch = Orchestrator(cfg, rundir)
     absroot = os.path.join(rundir, "d")     # where Sandbox(cfg, rundir) puts the observed tree
 
@@ -1044,6 +1101,8 @@ def run_shape_orch(cfg, shape, faults, rundir, res, base_steps, cc1_slots, bump)
         for how in faults:
             # exec-not-found is arranged through the environment and addressed by ordinal (see c14_shim.c)
             sweep((kind, k, how) if how == "noexec" else (kind, unit, how))
+    for fault in tmp_points:
+        sweep(fault)
 
 
 def _shape_batch(args):
@@ -1055,7 +1114,6 @@ def _shape_batch(args):
         shape = M.Shape(*spec)
         r = run_shape(cfg, shape, list(faults), os.path.join(cfg["root"], "w%d" % wid))
         r["iso"] = iso
-        r["nfaults"] = len(faults)
         out.append((spec, r))
     if out:
         out[0][1]["batch_seconds"] = round(time.time() - t0, 1)
@@ -1182,7 +1240,10 @@ def shape_specs(tier):
     allf = tuple(FAULTS[tier])
     shapes = [(sh, allf) for sh in M.enumerate_shapes(ALPHABET[tier])]
     shapes += [(M.Shape(mode, o, kinds, "w"), allf) for mode in ("c", "link") for o in (None, "file") for kinds in EXTRA_LISTS[tier]]
-    shapes += stdin_family(tier) + path_family(tier)
+    # the driver's own k-th temporary-file creation fails: wherever step faults are enumerated and temporaries are used
+    shapes = [(sh, f + (TMP_FAULT,) if f and tmp_fault_applies(sh) else f) for sh, f in shapes]
+    shapes += [(sh, f + (TMP_FAULT,) if f and tmp_fault_applies(sh) else f) for sh, f in stdin_family(tier)]
+    shapes += path_family(tier) + driver_family(tier)
     seen = set()
     for sh, faults in shapes:
         spec = sh.spec()
@@ -1194,6 +1255,61 @@ def shape_specs(tier):
             continue
         specs.append((spec, faults))
     return specs, undefined
+
+
+def tmp_fault_applies(sh):
+    return sh.mode in ("c", "link") and sh.outloc == "w"
+
+
+# Failures that originate in the DRIVER itself, possibly after it has run steps for earlier inputs: a word of the
+# command the driver must refuse or cannot use - DRIVER_BAD - at every position (first, middle, last) of lists of two
+# and three whose other members are good, in every mode x -o {absent, file} x {writable, sentinel at every output};
+# the kinds of M.DRIVER_FAULT_KINDS also alone.  No step fault is injected into these (the failure under study is the
+# driver's), but GOOD3 lists get the `tmp` fault at every temporary.
+#   unk        a file whose extension names no language      opt_unk   an option no driver knows
+#   opt_badx   -x with an unknown language                  opt_noarg -o without its argument (last word only)
+#   c_nx s_nx o_nx  a missing input of each language         c_dir     an unreadable input
+DRIVER_BAD = ["unk", "opt_unk", "opt_badx", "c_nx", "s_nx", "o_nx", "c_dir"]
+DRIVER_FILL2 = ["c", "s", "o"]
+DRIVER_FILL3 = {"quick": [("c", "c")], "thorough": list(itertools.product(["c", "s", "o"], repeat=2))}
+GOOD3 = {"quick": [("c", "c", "c"), ("c", "s", "o")],
+         "thorough": [("c", "c", "c"), ("c", "s", "o"), ("s", "c", "c"), ("o", "c", "s"), ("s", "s", "s")]}
+# One -o for several inputs, written before, between and after the inputs (a refusal that depends on where -o stands
+# comes after steps have run); with all faults for OPOS_FAULT_LISTS in the modes that use temporaries.
+OPOS_LISTS = [("c", "c"), ("c", "s"), ("c", "c", "c")]
+OPOS_FAULT_LISTS = [("c", "c")]
+
+
+def driver_lists(tier):
+    lists = [(k,) for k in M.DRIVER_FAULT_KINDS]
+    for bad in DRIVER_BAD:
+        for f in DRIVER_FILL2:
+            lists += [(bad, f), (f, bad)]
+        for f in DRIVER_FILL3[tier]:
+            lists += [f[:pos] + (bad,) + f[pos:] for pos in range(3)]
+    lists += [(f, "opt_noarg") for f in DRIVER_FILL2] + [f + ("opt_noarg",) for f in DRIVER_FILL3[tier]]
+    return lists
+
+
+def driver_family(tier):
+    out = []
+    for kinds in driver_lists(tier):
+        for mode in ("E", "S", "c", "link"):
+            for o in (None, "file"):
+                for outloc in ("w", "sent"):
+                    out.append((M.Shape(mode, o, kinds, outloc), ()))
+    for kinds in GOOD3[tier]:
+        for mode in ("c", "link"):
+            for o in (None, "file"):
+                out.append((M.Shape(mode, o, kinds, "w"), (TMP_FAULT,)))
+    for kinds in OPOS_LISTS:
+        for mode in ("E", "S", "c", "link"):
+            for pos in range(1, len(kinds) + 1):
+                for outloc in ("w", "sent"):
+                    sh = M.Shape(mode, "file", kinds, outloc, (("opos", pos),))
+                    faulted = kinds in OPOS_FAULT_LISTS and tmp_fault_applies(sh)
+                    out.append((sh, tuple(FAULTS[tier]) + (TMP_FAULT,) if faulted else ()))
+    return out
 
 
 # Standard input and library arguments as inputs.  Every list is run in every mode x -o {absent, file, -} x output
@@ -1333,13 +1449,15 @@ def _run_plain(argv, cwd, fin):
         return "timeout", b"", b""
 
 
-def gcc_naming_oracle(cfg, specs):
+def gcc_naming_oracle(cfg, specs, driver_specs=frozenset()):
     """gcc arbitrates the naming-family shapes with ONE input under -S / -c (writable directory): that is where the
     naming rule lives.  A shape with several inputs is covered by the verdicts on each of its inputs alone (what
     happens when names coincide is not judged by name anyway).  Returns ({name class: deviations}, number of gcc runs,
     number of gcc runs that disagree with the model)."""
     naming = [spec for spec in specs if len(spec) == 5 and any(k in ("paths", "oform") for k, _ in spec[4])]
     todo = [spec for spec in naming if spec[0] in ("S", "c") and spec[3] == "w" and len(spec[2]) == 1]
+    # ... and the driver-fault family (writable directory): must the command fail, and what may it still create
+    todo += [spec for spec in specs if spec in driver_specs and spec[3] == "w"]
     nb = core.NPROC * 2
     jobs = [(cfg, todo[i::nb], i) for i in range(nb) if todo[i::nb]]
     bad = {}
@@ -1356,7 +1474,7 @@ def gcc_naming_oracle(cfg, specs):
                 single = (spec[0], spec[1], (k,), tuple(sorted(dict(var, paths=(var["paths"][i],)).items())))
                 if single in bad:
                     bad[_nameclass(spec)] = ["input %d alone: %s" % (i, "+".join(bad[single]))]
-    return bad, len(todo), direct
+    return bad, len(todo), direct, set(_nameclass(spec) for spec in todo)
 
 
 def _nameclass(spec):
@@ -1368,7 +1486,9 @@ def shape_from_json(spec):
     return M.Shape(spec[0], spec[1], tuple(spec[2]), spec[3], var)
 
 
-def family_of(spec):
+def family_of(spec, driver_specs=()):
+    if spec in driver_specs:
+        return "driver-fault"
     if len(spec) == 5:
         return "naming"
     if any(k in M.STDIN_KINDS or k == "lib" for k in spec[2]):
@@ -1401,12 +1521,13 @@ def run(ctx):
     specs, undefined = shape_specs(ctx.tier)
     # Output names: the model's documented names must be what the reference driver produces too, otherwise the
     # shape is not judged (two-oracle rule)
-    name_disagree, gcc_runs, gcc_disagree = gcc_naming_oracle(cfg, [sp for sp, _ in specs])
+    driver_specs = frozenset(sh.spec() for sh, _ in driver_family(ctx.tier))
+    name_disagree, gcc_runs, gcc_disagree, gcc_direct = gcc_naming_oracle(cfg, [sp for sp, _ in specs], driver_specs)
     nspecs = len(specs)
     specs = [(sp, f) for sp, f in specs if _nameclass(sp) not in name_disagree]
     ctx.cover(gcc_naming_oracle_runs=gcc_runs, oracle_disagreements=gcc_disagree,
               oracle_disagreement_cases=sorted("chibicc %s: gcc %s" % (" ".join(M.Shape(k[0], k[1], k[2], "w", k[3]).argv()), "+".join(v))
-                                               for k, v in name_disagree.items() if len(k[2]) == 1),
+                                               for k, v in name_disagree.items() if k in gcc_direct),
               shapes_not_judged_for_oracle_disagreement=nspecs - len(specs))
     if gcc_runs and gcc_disagree * 4 > gcc_runs:
         raise core.HarnessError("the naming model and gcc disagree on %d of %d commands, e.g. %s" % (
@@ -1447,15 +1568,20 @@ def run(ctx):
     nonlast_failing = {}     # failure kind -> number of multi-input shapes with such a unit in a non-last position
     families = {}
     accepted_conflicts = named_ok = 0
+    late_driver_failures = nforks = 0       # driver-fault shapes that failed after the driver had started a process
     for spec, r in results:
         runs += r["runs"]
         ntemps += r["ntemps"]
-        fault_points += len(r["steps"]) * r["nfaults"]
-        families[family_of(spec)] = families.get(family_of(spec), 0) + 1
+        fault_points += r["fault_points"]
+        fam = family_of(spec, driver_specs)
+        families[fam] = families.get(fam, 0) + 1
+        if fam == "driver-fault" and r["status"] not in (0, None, "timeout") and (r["steps"] or r["forks"]):
+            late_driver_failures += 1
+        nforks += r["forks"]
         for k, v in r["cnt"].items():
             counters[k] = counters.get(k, 0) + v
         outcome_classes.add((spec[0], r["status"] == 0, len(r["steps"])))
-        if r["steps"]:
+        if r["steps"] or r["forks"]:
             nontrivial.add(spec)
         if r["status"] == 0:
             sh = M.Shape(*spec)
@@ -1587,6 +1713,17 @@ def run(ctx):
               conflicting_commands_accepted_by_the_driver=accepted_conflicts, naming_shapes_succeeded=named_ok)
     if ctx.exhaustive and (not families.get("naming") or not families.get("stdin+lib") or not named_ok or not conflict_shapes):
         raise core.HarnessError("vacuous: the naming / standard-input families did not run (%s, %d succeeded)" % (families, named_ok))
+    ctx.cover(driver_fault_shapes_failing_after_a_process_was_started=late_driver_failures,
+              processes_forked_by_the_driver_in_fault_free_runs=nforks)
+    if ctx.exhaustive and (not families.get("driver-fault") or not late_driver_failures):
+        raise core.HarnessError("vacuous: no command of the driver-fault family failed after the driver had started a "
+                                "process (%s, %d)" % (families, late_driver_failures))
+    if counters.get("cc1_steps_not_observable"):
+        # harness-neutral: nothing wrong with such a driver, but the k-th-cc1 fault points do not exist for it
+        ctx.incomplete("cc1 step not observable in %d of %d expected places: the front end is not run as a program of its "
+                       "own, so cc1 fault points were not enumerated there; exit status, temporaries and outputs were "
+                       "judged all the same" % (counters["cc1_steps_not_observable"],
+                                                counters.get("cc1_steps_expected_in_successful_commands", 0)))
 
     _debug(ctx, "part 1 judged and confirmed")
     # ---------------- part 2 ----------------
@@ -1607,6 +1744,15 @@ def run(ctx):
               extra_lists=[list(x) for x in EXTRA_LISTS[ctx.tier]],
               stdin_and_library_lists=[list(x) for x in STDIN_LISTS[ctx.tier]],
               stdin_and_library_lists_with_faults=[list(x) for x in STDIN_FAULT_LISTS[ctx.tier]],
+              driver_fault_family={
+                  "kinds_at_every_position": DRIVER_BAD, "last_word_only": ["opt_noarg"], "words": dict(M.OPT_KINDS, unk="<name>.data"),
+                  "fill_of_two_lists": DRIVER_FILL2, "fill_of_three_lists": [list(x) for x in DRIVER_FILL3[ctx.tier]],
+                  "lists": len(driver_lists(ctx.tier)), "modes": ["E", "S", "c", "link"], "o": ["absent", "file"],
+                  "output_locations": ["w", "sent"], "good_three_lists_with_tmp_fault": [list(x) for x in GOOD3[ctx.tier]],
+                  "o_position_lists": [list(x) for x in OPOS_LISTS], "o_positions": "after the 1st .. n-th input",
+                  "status_oracle": "gcc on the same command (writable directory); disagreement = not judged"},
+              tmp_fault="the driver's own k-th temporary-file creation (mkstemp family) fails with ENOSPC, every k, in "
+                        "-c / link mode shapes that have step faults (writable directory) and in the good three-lists",
               input_path_forms={"directory_forms": sorted(M.DIR_FORMS), "name_forms": {k: list(v) for k, v in M.NAME_FORMS.items()},
                                 "single_input": len(ALL_FORMS), "paired": PAIR_FORMS[ctx.tier]},
               o_spellings=list(M.O_FORMS), dependency_file_options=["-MD", "-MD -MF " + M.MF_NAME],
